@@ -1,1 +1,3 @@
-#[cfg(any(not(verif_select), verif_gk))] #[path = "/verif/harness/ntp_proto/gk_probe_time_types.rs"] pub(crate) mod gk;
+#[cfg(any(not(verif_select), verif_gk))]
+#[path = "/verif/harness/ntp_proto/gk_probe_time_types.rs"]
+pub(crate) mod gk;
